@@ -131,9 +131,15 @@ def magnitudes(param, zero_ok):
     pos = {"Calculator.fire.trajectory_range": [120.0], "Calculator.fire.trajectory_step": [40.0],
            "Calculator.set_weapon_zero.zero_distance": [60.0], "Calculator.barrel_elevation_for_target.target_distance": [60.0],
            "BCPoint.V": [300.0], "Sight.h_click_size": [0.1], "Sight.v_click_size": [0.1], "Ammo.mv": [900.0, 0.0],
-           "Ammo.calc_powder_sens.other_velocity": [700.0], "set_global_max_calc_step_size.value": [3.0, -2.0, 0.0],
+           "Ammo.calc_powder_sens.other_velocity": [700.0, 800.0], "set_global_max_calc_step_size.value": [3.0, -2.0, 0.0],
            "Atmo.pressure": [700.0, 0.0], "HitResult.danger_space.at_range": [30.0, 0.0], "HitResult.danger_space.target_height": [2.0, 0.0],
-           "Wind.until_distance": [50.0, 0.0], "Sight.scale_factor": [100.0, 0.0]}
+           "Wind.until_distance": [50.0, 0.0], "Sight.scale_factor": [100.0, 0.0],
+           # coincidences: bare numbers equal to the BASE-unit magnitude of another quantity of the same call (the baseline powder
+           # temperature 15 C is 59 in the library's base unit, the air temperature 10 C is 50, 800 m/s is 800): a bare number is
+           # that many of the PREFERRED unit - comparing it with a stored magnitude is comparing apples and pears
+           "Ammo.get_velocity_for_temp.current_temp": [3.0, -2.0, 0.0, 59.0, 15.0],
+           "Ammo.calc_powder_sens.other_temperature": [3.0, -2.0, 0.0, 59.0],
+           "Atmo.powder_t": [3.0, -2.0, 0.0, 50.0], "Ammo.powder_temp": [3.0, -2.0, 0.0, 59.0]}
     if param in pos:
         return pos[param]
     out = [3.0, -2.0]
